@@ -128,6 +128,19 @@ def update_flags(ctx: Ctx, rule: str) -> None:
         ok3 = ok3 and len(hs) == 1 and any(isinstance(x, ast.Raise) and PathEnum._raised_name(x) == "ValueError" for x in ast.walk(hs[0]))
     ctx.record(rule + "3", "TABLE", UPD, "both flag_children sites: AssertionError (state not found / ambiguous) -> ValueError", ok3, {"sites": len(tries)},
                "" if ok3 else "an unknown starting or target state is no longer rejected by the update tool")
+    # a nonexistent target or starting state must surface: only the clean graph's empty product may be skipped
+    swallowed = []
+    n_parse = 0
+    for t in [t for t in ast.walk(fn.node) if isinstance(t, ast.Try)]:
+        for c in [c for st in t.body for c in calls_in(st) if call_name(c) == "parse_object_trees"]:
+            restr = _kw(c).get("restriction")
+            reraises = all(any(isinstance(x, ast.Raise) for x in ast.walk(h)) for h in t.handlers)
+            if restr != "setup_str" and not reraises:
+                swallowed.append(restr)
+    n_parse = len([c for c in calls_in(fn.node) if call_name(c) == "parse_object_trees"])
+    ctx.record(rule + "3b", "TABLE", UPD, "an empty Cartesian product is tolerated (worker skipped) only for the clean graph; for the run and skip graphs (to_state / from_state) it propagates",
+               not swallowed and n_parse == 4, {"swallowed_for": swallowed},
+               "" if not swallowed and n_parse == 4 else f"a nonexistent state is silently tolerated: the parse of {swallowed} is wrapped in a handler that does not re-raise")
     # install target keeps only the original (install) node
     src = ast.unparse(fn.node)
     ok5 = "install_nodes = run_graph.get_nodes_by_name('all.original')" in src and "run_graph.new_nodes(install_nodes)" in src
@@ -264,6 +277,8 @@ MUTANTS = [
     ("target-itself-cleaned", IS, "                        flag=lambda self, slot: len(self.cloned_nodes) == 0,\n                        skip_parents=True,", "                        flag=lambda self, slot: len(self.cloned_nodes) == 0,\n                        skip_parents=False,", "2"),
     ("clean-all-workers", IS, "                        vm_object.component_form + r\".*\" + worker.id,\n                        flag_type=\"clean\",", "                        vm_object.component_form,\n                        flag_type=\"clean\",", "2"),
     ("unknown-state-ignored", IS, "                    logging.error(error)\n                    raise ValueError(\n                        f\"Could not identify a test node from {vm_name}'s to_state='{flag_state}', \"\n                        f\"is it compatible with the default or specified remove_set?\"\n                    )", "                    logging.error(error)", "3"),
+    ("bogus-from-state-tolerated", IS, "                skip_graph = l.parse_object_trees(\n                    worker=worker,\n                    restriction=param.re_str(\"all..\" + from_state),\n                    prefix=tag,\n                    object_restrs={vm_name: config[\"vm_strs\"][vm_name]},\n                    params=setup_dict,\n                    verbose=False,\n                )",
+     "                try:\n                    skip_graph = l.parse_object_trees(\n                        worker=worker,\n                        restriction=param.re_str(\"all..\" + from_state),\n                        prefix=tag,\n                        object_restrs={vm_name: config[\"vm_strs\"][vm_name]},\n                        params=setup_dict,\n                        verbose=False,\n                    )\n                except param.EmptyCartesianProduct as error:\n                    logging.warning(error)\n                    continue", "3b"),
     ("run-before-from-state", IS, "                clean_graph.flag_intersection(\n                    skip_graph, flag_type=\"run\", flag=lambda self, slot: False\n                )\n", "", "4"),
     ("from-state-children-rerun", IS, "                            or self.should_rerun(slot),\n                            skip_children=True,", "                            or self.should_rerun(slot),\n                            skip_children=False,", "4"),
     ("other-vms-parsed", IS, "            setup_dict[\"vms\"] = vm_name\n", "", "5"),
